@@ -541,6 +541,24 @@ pub fn directed(property: &str) -> Vec<Trace> {
                 vec!["C17"],
             ));
             out.push(mk(
+                "C17 local updates of every kind: text replaced, second text set, second text set to null, then searched",
+                1,
+                vec![
+                    Step::Create { node: 0, row: 0, room: 0, ent: 0, text: "alpha v1".into(), dt: 1 },
+                    Step::Nick { node: 0, row: 0, text: Some("zulu9 nick".into()), dt: 1000 },
+                    Step::Check,
+                    Step::Nick { node: 0, row: 0, text: None, dt: 1000 },
+                    Step::Check,
+                    Step::Update { node: 0, row: 0, text: "bravo7 v2".into(), dt: 1000 },
+                    Step::Check,
+                    Step::Nick { node: 0, row: 0, text: Some("kilo3 nick".into()), dt: 1000 },
+                    Step::Update { node: 0, row: 0, text: "bravo7 v2".into(), dt: 1000 },
+                    Step::Nick { node: 0, row: 0, text: None, dt: DAY_MS },
+                    Step::Check,
+                ],
+                vec!["C17"],
+            ));
+            out.push(mk(
                 "C17 indexed row replaced by a newer version through a pull",
                 2,
                 vec![
